@@ -1,7 +1,9 @@
 """C08 - parameters round-trip with correct quoting, list arity, caseless names.
 
-Decided: QUOTE, DELIMS, ARITY, CASE, VALUE-PATH (DESIGN.md 5/C08).
-Not decided: the scanner q_split itself (loop with a quote flag).
+Decided: QUOTE (class inclusion), PARAM-MODEL (E9: quoting, separators, arity,
+order, caseless names, freshness, injection - bounded exhaustive over the
+character-class quotient), VALUE-PATH (E4 identity of the placeholder
+rewriting).  Not decided: values longer than the bound as such.
 """
 import ast
 
@@ -112,309 +114,35 @@ def reader_param_delims(ctx):
 def run(ctx):
     m = ctx.model
     ctx.explanation = (
-        "character-class inclusion for QUOTABLE, sanitiser must-pass-through "
-        "(param_value -> dquote/q_join -> dquote per item), writer/reader "
-        "delimiter roles, arity shape of Parameters.from_ical, name case "
-        "folding on both sides, and transducer identity of the only rewriting "
-        "on the parameter value path (unescape_string ∘ escape_string).")
-    # ---- QUOTE -------------------------------------------------------------
+        "character-class inclusion for QUOTABLE (E5); bounded exhaustive abstract "
+        "execution (E9, sa.strmodel) of Parameters.to_ical / from_ical and of "
+        "Contentline.from_parts / parts on every parameter value up to the length "
+        "bound over the character-class quotient, compared with an independent "
+        "RFC 5545 reading of the emitted text (quoting, separators, arity, order, "
+        "caseless names, freshness); transducer identity of the only rewriting on "
+        "the parameter value path (unescape_string ∘ escape_string, E4).")
+    # ---- QUOTE: class inclusion ------------------------------------------------
     q = rx.repo_rx(m, "parser", "QUOTABLE")
     members = rx.class_members(q, [chr(i) for i in range(32, 127)])
     for ch in rfc.MUST_QUOTE:
         ctx.check(ch in members, "C08/QUOTE", f"QUOTABLE contains {ch!r}",
                   f"a parameter value containing {ch!r} would be emitted "
                   f"unquoted (QUOTABLE lacks it)", None, detail="in class")
-    dq = m.func("parser.dquote")
-    val_p = dq.params[0]
-    # shape: [val = val.replace('"', X)]; if QUOTABLE.search(val): return '"'+val+'"'; return val
-    env = SymEnv(dq.node)
-    quoted_ret = None
-    for n in ast.walk(dq.node):
-        if isinstance(n, ast.If):
-            t = n.test
-            if isinstance(t, ast.Call) and isinstance(t.func, ast.Attribute) \
-                    and t.func.attr == "search" and isinstance(t.func.value, ast.Name) \
-                    and t.func.value.id == "QUOTABLE":
-                r = n.body[0] if n.body and isinstance(n.body[0], ast.Return) else None
-                if r is not None:
-                    quoted_ret = (n, r)
-    okq = False
-    if quoted_ret:
-        n, r = quoted_ret
-        v = r.value
-        if isinstance(v, ast.JoinedStr) and len(v.values) == 3 \
-                and isinstance(v.values[0], ast.Constant) and v.values[0].value == '"' \
-                and isinstance(v.values[2], ast.Constant) and v.values[2].value == '"' \
-                and isinstance(v.values[1], ast.FormattedValue):
-            okq = dump(v.values[1].value) == dump(n.test.args[0])
-    ctx.check(okq, "C08/QUOTE", "dquote quotes on QUOTABLE hit",
-              "dquote must return the value inside double quotes whenever "
-              "QUOTABLE.search hits the same (sanitised) value", dq.loc(),
-              detail='if QUOTABLE.search(val): return f\'"{val}"\'')
-    # the DQUOTE character itself is removed before the test
-    rep = [c for c in ast.walk(dq.node) if isinstance(c, ast.Call)
-           and isinstance(c.func, ast.Attribute) and c.func.attr == "replace"
-           and c.args and isinstance(c.args[0], ast.Constant) and c.args[0].value == '"']
-    ok_rep = bool(rep) and quoted_ret is not None and \
-        rep[0].lineno < quoted_ret[0].lineno and \
-        isinstance(rep[0].args[1], ast.Constant) and '"' not in rep[0].args[1].value
-    ctx.check(ok_rep, "C08/QUOTE", "dquote removes DQUOTE first",
-              "a double quote inside a value must be replaced before quoting "
-              "(it would end the quoted string)", dq.loc(), detail="val.replace('\"', …)")
-    pv = m.func("parser.param_value")
-    rets = [n for n in walk_no_nested(pv.node) if isinstance(n, ast.Return)]
-    good = bool(rets)
-    for r in rets:
-        v = r.value
-        good &= isinstance(v, ast.Call) and isinstance(v.func, ast.Name) \
-            and v.func.id in ("dquote", "q_join")
-    ctx.check(good, "C08/QUOTE", "param_value always sanitises",
-              "every return of param_value must go through dquote or q_join",
-              pv.loc(), detail=f"{len(rets)} returns, all dquote/q_join")
-    qj = m.func("parser.q_join")
-    rets = [n for n in walk_no_nested(qj.node) if isinstance(n, ast.Return)]
-    good = len(rets) == 1
-    if good:
-        v = rets[0].value
-        good = (isinstance(v, ast.Call) and isinstance(v.func, ast.Attribute)
-                and v.func.attr == "join" and isinstance(v.func.value, ast.Name)
-                and v.func.value.id == qj.params[1]
-                and isinstance(v.args[0], (ast.GeneratorExp, ast.ListComp))
-                and isinstance(v.args[0].elt, ast.Call)
-                and isinstance(v.args[0].elt.func, ast.Name)
-                and v.args[0].elt.func.id == "dquote"
-                and is_param(SymEnv(qj.node).expand_at(v.args[0].generators[0].iter, rets[0]),
-                             qj.params[0])
-                and not v.args[0].generators[0].ifs)
-    ctx.check(good, "C08/QUOTE", "q_join quotes every item",
-              "q_join must apply dquote to every item of the list before joining",
-              qj.loc(), detail="sep.join(dquote(itm) for itm in lst)")
-    # to_ical sends every value through param_value
+    # ---- PARAM-MODEL -------------------------------------------------------------
+    from .. import strmodel
     ti = m.own_method("parser.Parameters.to_ical")
-    pvc = [c for c in ast.walk(ti.node) if isinstance(c, ast.Call)
-           and isinstance(c.func, ast.Name) and c.func.id == "param_value"]
-    ctx.check(len(pvc) == 1, "C08/QUOTE", "to_ical uses param_value",
-              "Parameters.to_ical must render each value with param_value",
-              ti.loc(), detail="value = param_value(value)")
-
-    # ---- DELIMS ------------------------------------------------------------
-    w, ti, qj = writer_param_delims(ctx)
-    r, fi, info = reader_param_delims(ctx)
-    for role in ("param", "keyvalue", "value"):
-        ctx.check(w[role] == r[role], "C08/DELIMS", f"{role} separator",
-                  f"writer separates {role}s with {w[role]!r}, reader splits "
-                  f"quote-aware on {r[role]!r}", fi.loc(info.get(role)),
-                  detail=repr(w[role]))
-    ctx.check((w["param"], w["keyvalue"], w["value"]) == (";", "=", ","),
-              "C08/DELIMS", "RFC separators",
-              f"RFC 5545 3.1: params separated by ';', name '=' value, values "
-              f"by ','; writer uses {w}", ti.loc(), detail="; = ,")
-
-    # ---- ARITY -------------------------------------------------------------
-    # the value list comes from the quote-aware splitter
-    ctx.check("value" in info, "C08/ARITY", "values split quote-aware",
-              "parameter values must be split with q_split (a quoted value "
-              "containing ',' is one value)", fi.loc(), detail="q_split(val, ',')")
-    plain_split = [c for c in ast.walk(fi.node) if isinstance(c, ast.Call)
-                   and isinstance(c.func, ast.Attribute) and c.func.attr == "split"]
-    ctx.check(not plain_split, "C08/ARITY", "no str.split in the reader",
-              f"`{dump(plain_split[0]) if plain_split else ''}` splits without "
-              f"regard to quotes", fi.loc(plain_split[0]) if plain_split else fi.loc(),
-              detail="only q_split")
-    # every split value is appended (quoted: stripped of quotes; unquoted: as is)
-    loops = [n for n in ast.walk(fi.node) if isinstance(n, ast.For)
-             and any(x is info.get("value") for x in ast.walk(n.iter))]
-    if "value" not in info:
-        loops = [n for n in ast.walk(fi.node) if isinstance(n, ast.For)
-                 and any(isinstance(c, ast.Call) and isinstance(c.func, ast.Attribute)
-                         and c.func.attr == "append" for c in ast.walk(n))
-                 and not any(isinstance(x, ast.Try) for x in ast.walk(n))]
-    if len(loops) != 1:
-        raise AnalysisError("Parameters.from_ical: value loop not found")
-    lp = loops[0]
-    appends = [c for c in ast.walk(lp) if isinstance(c, ast.Call)
-               and isinstance(c.func, ast.Attribute) and c.func.attr == "append"]
-    skips = [n for n in ast.walk(lp) if isinstance(n, (ast.Continue, ast.Break))]
-    # each path of the loop body appends exactly once: check If/else coverage
-
-    def paths_append(stmts):
-        """min and max number of appends over paths of a block"""
-        lo = hi = 0
-        for st in stmts:
-            if isinstance(st, ast.If):
-                a1, b1 = paths_append(st.body)
-                a2, b2 = paths_append(st.orelse)
-                lo += min(a1, a2)
-                hi += max(b1, b2)
-            elif isinstance(st, ast.Expr) and st.value in appends:
-                lo += 1
-                hi += 1
-        return lo, hi
-    lo, hi = paths_append(lp.body)
-    ctx.check(lo == 1 and hi == 1 and not skips, "C08/ARITY",
-              "each split value kept exactly once",
-              f"a value of the list is appended between {lo} and {hi} times per "
-              f"path: arity is not preserved", fi.loc(lp), detail="one append per path")
-    acc = appends[0].func.value.id if appends and isinstance(appends[0].func.value, ast.Name) else None
-    # result[key] = vals[0] if len(vals) == 1 else vals
-    ok_ar = False
-    for n in ast.walk(fi.node):
-        if isinstance(n, ast.If) and isinstance(n.test, ast.Compare) \
-                and isinstance(n.test.left, ast.Call) \
-                and isinstance(n.test.left.func, ast.Name) \
-                and n.test.left.func.id == "len" \
-                and isinstance(n.test.left.args[0], ast.Name) \
-                and n.test.left.args[0].id == acc \
-                and isinstance(n.test.ops[0], ast.Eq) \
-                and isinstance(n.test.comparators[0], ast.Constant) \
-                and n.test.comparators[0].value == 1:
-            b, o = n.body, n.orelse
-            if len(b) == 1 and len(o) == 1 and isinstance(b[0], ast.Assign) \
-                    and isinstance(o[0], ast.Assign):
-                bv, ov = b[0].value, o[0].value
-                ok_ar = (isinstance(bv, ast.Subscript) and isinstance(bv.value, ast.Name)
-                         and bv.value.id == acc and isinstance(bv.slice, ast.Constant)
-                         and bv.slice.value == 0 and isinstance(ov, ast.Name)
-                         and ov.id == acc)
-    ctx.check(ok_ar, "C08/ARITY", "one value -> str, n values -> list of n",
-              "the reader must store the single value itself when exactly one "
-              "was split and the whole list (same order) otherwise", fi.loc(),
-              detail="len(vals) == 1 ? vals[0] : vals")
-    # writer: list -> q_join over all items, str -> dquote
-    seq_branch = False
-    for n in ast.walk(pv.node):
-        if isinstance(n, ast.If) and "SEQUENCE_TYPES" in dump(n.test) \
-                and isinstance(n.body[0], ast.Return) \
-                and isinstance(n.body[0].value, ast.Call) \
-                and isinstance(n.body[0].value.func, ast.Name) \
-                and n.body[0].value.func.id == "q_join":
-            seq_branch = is_param(SymEnv(pv.node).expand_at(n.body[0].value.args[0], n.body[0]),
-                                  pv.params[0])
-    ctx.check(seq_branch, "C08/ARITY", "writer joins the whole list",
-              "param_value must send list/tuple values to q_join unchanged",
-              pv.loc(), detail="isinstance(value, SEQUENCE_TYPES) -> q_join(value)")
-
-    # every appended value is the split text itself (quotes stripped / strict
-    # upper-casing only): any other decoding step has no inverse in the writer
-    tgt = lp.target.id if isinstance(lp.target, ast.Name) else None
-    envf = SymEnv(fi.node)
-    for ap_i, ap in enumerate(sorted(appends, key=lambda c: (c.lineno, c.col_offset))):
-        e = ap.args[0]
-        cur = e
-        steps = []
-        # follow local re-assignments of the loop variable inside the loop body
-        seen_guard = 0
-        while seen_guard < 6:
-            seen_guard += 1
-            if isinstance(cur, ast.Call) and isinstance(cur.func, ast.Attribute) \
-                    and cur.func.attr in ("strip", "upper") \
-                    and (cur.func.attr == "upper" or (cur.args and isinstance(cur.args[0], ast.Constant)
-                                                      and cur.args[0].value == '"')):
-                steps.append(cur.func.attr)
-                cur = cur.func.value
-                continue
-            if isinstance(cur, ast.Name) and cur.id == tgt:
-                # was the loop variable reassigned before this append?
-                reass = [n for n in ast.walk(lp) if isinstance(n, ast.Assign)
-                         and isinstance(n.targets[0], ast.Name) and n.targets[0].id == tgt
-                         and n.lineno < ap.lineno]
-                bad = [n for n in reass if not (
-                    isinstance(n.value, ast.Call) and isinstance(n.value.func, ast.Attribute)
-                    and n.value.func.attr in ("strip", "upper")
-                    and isinstance(n.value.func.value, ast.Name) and n.value.func.value.id == tgt)]
-                cur = None if not bad else bad[0].value
-                break
-            break
-        ctx.check(cur is None, "C08/VALUE-PATH", f"reader keeps split value verbatim (append #{ap_i + 1})",
-                  f"Parameters.from_ical stores `{dump(e)[:60]}`: a decoding step "
-                  f"(`{dump(cur)[:50] if cur is not None else ''}`) that the writer "
-                  f"(param_value/dquote) does not apply in reverse", fi.loc(ap),
-                  detail="v / v.strip('\"') / v.upper() (strict)")
-
-    # ---- FRESH: to_ical depends on the current items only ---------------------
-    mapping_api = {"items", "keys", "values", "sorted_items", "sorted_keys", "get"}
-    hidden = [n for n in ast.walk(ti.node) if isinstance(n, ast.Attribute)
-              and isinstance(n.value, ast.Name) and n.value.id == ti.params[0]
-              and n.attr not in mapping_api]
-    ctx.check(not hidden, "C08/FRESH", "to_ical reads only the current items",
-              f"Parameters.to_ical touches self.{hidden[0].attr if hidden else ''}: "
-              f"output that depends on stored state (a cache) goes stale when a "
-              f"list value is edited in place or pop()/clear() are used",
-              ti.loc(hidden[0]) if hidden else ti.loc(), detail="self.items() only")
-    over = [name for name in ("__setitem__", "__delitem__", "pop", "update", "clear", "popitem")
-            if name in m.cls("parser.Parameters").methods]
-    ctx.check(not over, "C08/FRESH", "Parameters adds no mutation hooks",
-              f"Parameters overrides {over}: per-operation bookkeeping that other "
-              f"mutators bypass", m.cls("parser.Parameters").loc(), detail="none")
-
-    # ---- CASE --------------------------------------------------------------
-    up = None
-    envt = SymEnv(ti.node)
-    for c in ast.walk(ti.node):
-        if isinstance(c, ast.Call) and isinstance(c.func, ast.Attribute) \
-                and c.func.attr == "append" and c.args:
-            e = envt.expand_at(c.args[0])
-            up = any(isinstance(x, ast.Call) and isinstance(x.func, ast.Attribute)
-                     and x.func.attr == "upper" for x in ast.walk(e.left if isinstance(e, ast.BinOp) else e))
-    ctx.check(bool(up), "C08/CASE", "names upper-cased on write",
-              "Parameters.to_ical must emit key.upper()", ti.loc(),
-              detail="key.upper().encode(...) + b'=' + value")
-    stores = [n for n in ast.walk(fi.node) if isinstance(n, ast.Assign)
-              and isinstance(n.targets[0], ast.Subscript)
-              and isinstance(n.targets[0].value, ast.Name)]
-    res_names = {n.targets[0].value.id for n in stores}
-    made = [n for n in ast.walk(fi.node) if isinstance(n, ast.Assign)
-            and isinstance(n.targets[0], ast.Name) and n.targets[0].id in res_names
-            and isinstance(n.value, ast.Call) and isinstance(n.value.func, ast.Name)
-            and n.value.func.id == fi.params[0]]
-    ctx.check(bool(stores) and bool(made), "C08/CASE", "names stored caselessly on read",
-              "Parameters.from_ical must store into a cls() instance through "
-              "item assignment (CaselessDict.__setitem__ folds the case)",
-              fi.loc(), detail="result = cls(); result[key] = …")
-    tp = TextPath(ctx)
-    pe = tp.params_expr
-    okp = (isinstance(pe, ast.Call) and isinstance(pe.func, ast.Name)
-           and pe.func.id == "Parameters" and pe.args
-           and isinstance(pe.args[0], ast.GeneratorExp))
-    ctx.check(okp, "C08/CASE", "parts rebuilds a Parameters mapping",
-              "Contentline.parts must return parameters as a Parameters "
-              "(caseless) mapping", tp.parts.loc(), detail="Parameters((k, v) for …)")
-
-    # ---- VALUE-PATH --------------------------------------------------------
-    # reader side: items of Parameters.from_ical(escape_string(line)[..]) go
-    # through unescape_list_or_string == unescape_string per item
-    uls = m.func("parser.unescape_list_or_string")
-    calls = {c.func.id for c in ast.walk(uls.node) if isinstance(c, ast.Call)
-             and isinstance(c.func, ast.Name)} - {"isinstance"}
-    ctx.check(calls == {"unescape_string"}, "C08/VALUE-PATH",
-              "unescape_list_or_string maps unescape_string",
-              f"unescape_list_or_string applies {sorted(calls)}", uls.loc(),
-              detail="per item / whole string")
-    if okp:
-        elt = pe.args[0].elt
-        fns = [c.func.id for c in ast.walk(elt) if isinstance(c, ast.Call)
-               and isinstance(c.func, ast.Name)]
-        src_ok = any(isinstance(x, ast.Call) and isinstance(x.func, ast.Attribute)
-                     and x.func.attr == "from_ical" for x in ast.walk(pe.args[0].generators[0].iter))
-        arg_ok = "escape_string" in dump(pe.args[0].generators[0].iter)
-        ctx.check(sorted(fns) == ["unescape_list_or_string", "unescape_string"]
-                  and src_ok and arg_ok, "C08/VALUE-PATH",
-                  "reader rewriting is escape_string then unescape_string",
-                  f"parameter keys/values are rewritten by {fns} over "
-                  f"`{dump(pe.args[0].generators[0].iter)[:60]}`", tp.parts.loc(),
-                  detail="unescape_string(key), unescape_list_or_string(value) over "
-                         "Parameters.from_ical(escape_string(line)[…])")
+    strmodel.report(ctx, "C08/PARAM-MODEL", strmodel.explore_params, strmodel.PARAM_LAWS,
+                    ti.loc(), 300)
+    # ---- VALUE-PATH: the reader's placeholder rewriting is the identity -----------
     es = m.func("parser.escape_string")
     us = m.func("parser.unescape_string")
-    path = tp.compose([es, us], "unescape_string∘escape_string")
+    ce, cu = fst.function_chains(m, es), fst.function_chains(m, us)
+    if "str" not in ce or "str" not in cu:
+        raise AnalysisError("escape_string/unescape_string: no str chain")
+    path = fst.Chain(ce["str"].stages + cu["str"].stages, "unescape_string∘escape_string")
     ident = fst.Chain([], "identity")
+    parts = m.own_method("parser.Contentline.parts")
     decide_equiv(ctx, "C08/VALUE-PATH", path, ident,
-                 "parameter value through Contentline.parts", tp.parts.loc(),
+                 "parameter value through Contentline.parts", parts.loc(),
                  n_other=2 if ctx.thorough else 1)
-    # writer side applies no other rewriting than dquote's DQUOTE replacement
-    other_repl = [c for c in ast.walk(dq.node) if isinstance(c, ast.Call)
-                  and isinstance(c.func, ast.Attribute) and c.func.attr == "replace"]
-    ctx.check(len(other_repl) == 1, "C08/VALUE-PATH", "writer rewrites only DQUOTE",
-              f"dquote applies {len(other_repl)} replacements", dq.loc(),
-              detail="only '\"' is replaced")
-    ctx.floor("C08/QUOTE", 8)
+    ctx.floor("C08/QUOTE", 3)
